@@ -88,7 +88,8 @@ Inductive ev :=
 | EDisc                                     (* events_discarded incremented (ghost) *)
 | EPacket (size_bits : nat) (content : list Z)   (* bytes handed over in the close callback *)
 | ERet (c : ctx)                            (* context after a public call returned *)
-| EErr (code : nat).                        (* 1: store outside the packet buffer, 2: assert in _reserve_er_space *)
+| EErr (code : nat).                        (* 1: store outside the packet buffer; 2: former assert of
+                                               _reserve_er_space, no longer produced (S18 repaired) *)
 
 Record world := mk_w { w_c : ctx; w_or : list ans; w_clk : Z; w_log : list ev; w_err : bool;
                        w_pcargs : list val }.
@@ -299,7 +300,9 @@ Section Stream.
           else
             let w := with_use_ts open_cb w in
             let c := w_c w in
-            if gt_diff32 er_size (c_psize c) (c_at c) then (true, fail w 2) else (true, w)
+            (* the record does not fit the packet just opened (the platform may have installed a
+               smaller buffer): discarded and counted (was an assert before the repair of S18) *)
+            if gt_diff32 er_size (c_psize c) (c_at c) then no_space w else (true, w)
         else (true, w).
 
   Fixpoint eh_vals (ms : list (string * ft)) (id : nat) (ts : Z) : list val :=
@@ -347,13 +350,27 @@ Section Stream.
           if negb ok then set_c w (set_in_ts (w_c w) false)
           else if w_err w then w
           else
-            let w := if d_has_clock d && has_member_o (d_eh d) "timestamp"
-                     then logev w (ETs 2 (c_last_ts (w_c w))) else w in
-            let w := ser_parts w (rec_parts e (c_last_ts (w_c w)) args) in
-            if w_err w then w
+            (* repair of S9: when the reservation moved the position (packet switch) the size is
+               computed again at the new position; a record that does not fit is discarded *)
+            let r2 : bool * world :=
+              if c_at (w_c w) =? c_at c then (true, w)
+              else match size_parts (rec_parts e 0%Z args) (c_at (w_c w)) with
+                   | None => (false, fail w 4)
+                   | Some at_end2 =>
+                       if gt_diff32 (at_end2 - c_at (w_c w)) (c_psize (w_c w)) (c_at (w_c w))
+                       then let (_, w) := no_space w in (false, set_c w (set_in_ts (w_c w) false))
+                       else (true, w)
+                   end in
+            if negb (fst r2) then snd r2
             else
-              let w := if c_at (w_c w) =? c_psize (w_c w) then close_cb w else w in
-              set_c w (set_in_ts (w_c w) false)
+              let w := snd r2 in
+              let w := if d_has_clock d && has_member_o (d_eh d) "timestamp"
+                       then logev w (ETs 2 (c_last_ts (w_c w))) else w in
+              let w := ser_parts w (rec_parts e (c_last_ts (w_c w)) args) in
+              if w_err w then w
+              else
+                let w := if c_at (w_c w) =? c_psize (w_c w) then close_cb w else w in
+                set_c w (set_in_ts (w_c w) false)
       end.
 
   Inductive call :=
